@@ -80,6 +80,9 @@ def main():
         if rc != 0:
             res["error"] = "patch does not apply to /repo: " + out[-300:]
         else:
+            bak = "/verif/out/evidence-backup"
+            shutil.rmtree(bak, ignore_errors=True)
+            shutil.copytree("/verif/evidence", bak)  # evidence must describe runs on the unchanged tree only
             try:
                 for p in props:
                     t0 = time.time()
@@ -89,6 +92,8 @@ def main():
                     checks[p] = {"exit": rc, "violations": len(viol), "first": detail, "wall_s": round(time.time() - t0, 1)}
             finally:
                 sh("git checkout -- .", "/repo")
+                shutil.rmtree("/verif/evidence", ignore_errors=True)
+                shutil.copytree(bak, "/verif/evidence")
     meta["verification"] = res
     meta["checks_against_patch"] = checks
     meta["what_was_run"] = "tools/seedcheck.py: existing suite with patch, demo with and without patch in a scratch worktree; then ./check <property> --tier quick on /repo with the patch applied, patch undone afterwards"
